@@ -8,7 +8,7 @@ BN = progs.BN
 
 def rand_schema(rnd, depth=0):
     k = rnd.random()
-    if depth >= 2 or k < 0.35: return ["bool"] if rnd.random() < 0.4 else ["intmod", rnd.choice([2, 3, 5, 8, 10, 16, 17])]
+    if depth >= 2 or k < 0.35: return ["bool"] if rnd.random() < 0.4 else ["intmod", rnd.choice([1, 2, 3, 5, 8, 10, 16, 17])]
     if k < 0.7: return ["list", [rand_schema(rnd, depth + 1) for _ in range(rnd.choice([1, 2, 3]))]]
     return ["repeat", rand_schema(rnd, depth + 1), rnd.choice([1, 2, 3])]
 
@@ -58,6 +58,16 @@ def casegen(rnd):
         d2 = nreg[0]; nreg[0] += 1
         prog.append(["unpack", d2, sch, d1])
         return dict(cfg=cfg, prog=prog, ins=ins, kind="pack", schema=sch, value=val, secret=secret)
+    if k < 0.78:
+        # several decompositions / non-negativity assertions of the SAME object at different widths, in any order:
+        # each one must enforce its own width (whatever was computed for the object before)
+        ws = [rnd.choice([1, 2, 3, 4, 5, cfg["n"], cfg["n"] + 2, 12]) for _ in range(rnd.choice([2, 3]))]
+        top = max(ws)
+        v = rnd.choice([0, 1, 2 ** min(ws) - 1, 2 ** min(ws), 2 ** min(ws) + 3, 2 ** top - 1, 2 ** top, rnd.randrange(0, 2 ** top)])
+        prog = [["input", 0, "priv", 0]]
+        for i, w in enumerate(ws):
+            prog.append(["meth", i + 1, rnd.choice(["to_bits", "to_bits", "assert_positive"]), (None if w == cfg["n"] else w), 0, []])
+        return dict(cfg=cfg, prog=prog, ins=[v], kind="bits-seq", widths=ws, value=v)
     # to_bits(k) / from_bits round trip at a width independent of the global bitlength
     w = rnd.choice([1, 2, 3, 5, cfg["n"], cfg["n"] + 1, 12])
     v = rnd.choice([0, 1, 2 ** w - 1, 2 ** w, 2 ** w + 1, -1, rnd.randrange(0, 2 ** w), rnd.randrange(0, 2 ** w)])
@@ -100,6 +110,19 @@ def oracle(case, rec, group):
         if got != want:
             out.append(dict(op="pack", key="roundtrip", what="unpack(pack(x)) = %r differs from x = %r" % (got, want), schema=case["schema"]))
         if rec["unsat"]: out.append(dict(op="pack", key="unsatisfied", what="constraints violated by the recorded witness"))
+    elif case.get("kind") == "bits-seq":
+        v = case["value"]
+        bad_at = next((i for i, w in enumerate(case["widths"]) if not (0 <= v < 2 ** w)), None)
+        if bad_at is None:
+            if rec["exn"] is not None:
+                out.append(dict(op="to_bits", key="raised", what="decompositions of %d at widths %r raised %s" % (v, case["widths"], rec["exn"]), msg=rec["msg"]))
+        else:
+            if rec["exn"] is None:
+                out.append(dict(op="to_bits", key="accepted-after-wider", what="%d was accepted as a %d-bit value (statement %d of a sequence of decompositions of the same object at widths %r)"
+                                % (v, case["widths"][bad_at], bad_at + 2, case["widths"])))
+            elif rec.get("pc") != bad_at + 2:
+                out.append(dict(op="to_bits", key="wrong-statement", what="the sequence raised at statement %r, the first width that rejects %d is at statement %d" % (rec.get("pc"), v, bad_at + 2)))
+        if rec["exn"] is None and rec["unsat"]: out.append(dict(op="to_bits", key="unsatisfied", what="constraints violated by the recorded witness"))
     elif case.get("kind") == "bits":
         w, v = case["width"], case["value"]
         ok = 0 <= v < 2 ** w
